@@ -298,11 +298,15 @@ class Evaluator:
         if v is not None:
             return [(st, v)]
         # any(P(x) for x in (a, b)) over a short literal tuple is P(a) or P(b) (all: and), decided in turn
-        if self.split_bool and t[0] == "call" and t[1] in (("name", "any"), ("name", "all")) and len(t[2]) == 1 and not t[3] and t[2][0][0] == "comp":
+        if self.split_bool and t[0] == "call" and t[1] in (("name", "any"), ("name", "all")) and len(t[2]) == 1 and not t[3] and t[2][0][0] in ("comp", "tuple", "list"):
             comp = t[2][0]
-            if len(comp[3]) == 1 and not comp[3][0][2] and len(comp[3][0][0]) == 1 and comp[3][0][1][0] in ("tuple", "list") and 1 <= len(comp[3][0][1][1]) <= 4:
+            parts = None
+            if comp[0] in ("tuple", "list") and 1 <= len(comp[1]) <= 4 and not any(x[0] == "star" for x in comp[1]):
+                parts = list(comp[1])  # any((a, b)) is `a or b` as a truth value
+            elif comp[0] == "comp" and len(comp[3]) == 1 and not comp[3][0][2] and len(comp[3][0][0]) == 1 and comp[3][0][1][0] in ("tuple", "list") and 1 <= len(comp[3][0][1][1]) <= 4:
                 bnd = ("bound", comp[3][0][0][0])
                 parts = [substitute(comp[2], {bnd: item}) for item in comp[3][0][1][1]]
+            if parts is not None:
                 is_all = t[1][1] == "all"
                 results: List[Tuple[_State, bool]] = []
                 pending = [st]
